@@ -125,10 +125,10 @@ def edges_harness(ctx):
     prev_k, next_k = NEIGH[ctx.choose(3, "previous-block")], NEIGH[ctx.choose(3, "next-block")]
     proxy = bool(ctx.choose(2, "retarget_to_proxy"))
     inc = ["none", "fallthrough", "branch", "both"][ctx.choose(4, "incoming")]
-    outk = ["fallthrough", "jmp", "ret", "call", "none"][ctx.choose(5, "outgoing")]
+    outk = ["fallthrough", "jmp", "ret", "call", "none", "self-call"][ctx.choose(6, "outgoing")]
     if inc in ("fallthrough", "both") and prev_k != "code":
         return
-    if outk in ("fallthrough", "call") and next_k != "code":
+    if outk in ("fallthrough", "call", "self-call") and next_k != "code":
         return
     H = build("code", prev_k, next_k)
     ir, m, blk, prev, nxt, other, callee = H["ir"], H["m"], H["blk"], H["prev"], H["nxt"], H["other"], H["callee"]
@@ -147,6 +147,13 @@ def edges_harness(ctx):
         add_edge(cfg, blk, callee, ET.Call)
         add_edge(cfg, blk, nxt, ET.Fallthrough)
         add_edge(cfg, callee, nxt, ET.Return)
+    elif outk == "self-call":
+        # the block is the entry of a function f = {blk, nxt} and ends in a call to its own start (recursion); nxt holds f's ret,
+        # which returns to the return site of that call: nxt itself
+        add_edge(cfg, blk, blk, ET.Call)
+        add_edge(cfg, blk, nxt, ET.Fallthrough)
+        add_edge(cfg, nxt, nxt, ET.Return)
+        add_function(m, add_symbol(m, "f", blk), blk, {nxt})
     if outk != "call":
         add_edge(cfg, callee, add_proxy_block(m), ET.Return)
     add_function(m, add_symbol(m, "g", callee), callee)
@@ -162,9 +169,17 @@ def edges_harness(ctx):
             ctx.prove(tag + "/kept-only-in-a-documented-case", z3.BoolVal(inc != "none" and next_k != "code" and not proxy),
                       note="incoming control flow with no following code block")
             return
+        if outk == "self-call":
+            # RET: with the recursive call gone (and, without retarget_to_proxy, nxt the new entry) nobody calls f any more
+            rets_f = [e.target for e in nxt.outgoing_edges if e.label.type == ET.Return]
+            ctx.prove(tag + "/returns-of-a-function-whose-only-call-was-removed-lead-to-one-registered-proxy",
+                      z3.BoolVal(len(rets_f) == 1 and isinstance(rets_f[0], gtirb.ProxyBlock) and rets_f[0] in m.proxies),
+                      note="f's ret now returns to %s" % [type(t).__name__ for t in rets_f])
         # where did the incoming edges go?
         bad = []
         for (src, ty, cond) in in0:
+            if src is blk:
+                continue            # the block's edge to itself went away with it
             tg = [e.target for e in src.outgoing_edges if e.label.type == ty and e.label.conditional == cond]
             if len(tg) != 1:
                 bad.append("edge from %s lost or duplicated" % type(src).__name__)
